@@ -31,6 +31,10 @@ def finish (d : Dataset) (labels : List String) (clps : List Vec) (wres : Mat) :
     ⟨d.label, labels, clps, res, some wres, subMat d.data res⟩
   | none => ⟨d.label, labels, clps, wres, none, subMat d.data wres⟩
 
+/-- the `matrix` variable of a result dataset at global index `i`: slice `i` of the dataset's combined
+    megacomplex matrix — not scaled by the dataset scale, not reduced, not weighted -/
+def matrixAt (lm : LMat) (nGlobal i : Nat) : Mat := ((slices lm nGlobal).getD i default).m
+
 def chunk (n : Nat) : Nat → Vec → List Vec
   | 0, _ => []
   | k + 1, v => v.take n :: chunk n k (v.drop n)
@@ -55,7 +59,10 @@ def unlinkedResult (mi : ModelItems) (s : Solver) (d : Dataset) : Option DsResul
         let labels := match datasetMatrix d.mcs with | some lm => lm.labels | none => []
         finish d labels clps (ofColumns d.nModel (sols.map (fun pc => pc.2.2))))
 
-/-- linked group: un-stack the residual of every aligned index and pick the clps by label -/
+/-- linked group: un-stack the residual of every aligned index and pick the clps by label.
+    LEGACY layout (the code before fix D27): a dataset's columns in aligned-axis order.  Equal to
+    `linkedResultsOwn` when the dataset's aligned axis is ascending; kept because C13's lemmas are stated
+    about it — the C03 driver and the C03 theorems use `linkedResultsOwn`. -/
 def linkedResults (mi : ModelItems) (g : Group) : Option (List DsResult) :=
   match alignAxes (g.datasets.map (·.globalAxis)) g.tol g.method, linkedProblems mi g with
   | some aligned, some (axis, ps) =>
@@ -85,6 +92,43 @@ def groupResults (mi : ModelItems) (g : Group) : Option (List DsResult) :=
 def results (mi : ModelItems) (gs : List Group) : Option (List DsResult) :=
   (gs.mapM (groupResults mi)).map List.flatten
 
+/-! ### the layout of the repaired code (fix D27): every dataset on its own global index order -/
+
+/-- the result of one member dataset `dk = (dataset, its aligned axis)` of a linked group: for every global
+    index of the dataset, in the dataset's own order, the clps (picked by label) and the dataset's block of
+    the stacked residual of the aligned index it was aligned to -/
+def linkedOneOwn (mi : ModelItems) (da : List (Dataset × List Rat)) (axis : List Rat)
+    (sols : List (IndexProblem × (Vec × Vec))) (dk : Dataset × List Rat) : DsResult :=
+  let d := dk.1
+  let own := match datasetMatrix d.mcs with | some lm => lm.labels | none => []
+  -- per global index of this dataset (in the dataset's own order): the aligned value it was aligned
+  -- to and the solution of that aligned index
+  let hits := dk.2.filterMap (fun v => (axis.zip sols).find? (fun vs => vs.1 == v))
+  let parts := hits.map (fun vs =>
+    let v := vs.1; let p := vs.2.1; let cr := vs.2.2
+    let full := retrieveClps mi p.fullLabels p.reduced.labels cr.1 p.x
+    let clp := own.map (fun l => match p.fullLabels.idxOf? l with | some j => full.getD j 0 | none => 0)
+    -- offset of this dataset's block in the stacked residual
+    let before := (da.takeWhile (fun e => e.1.label != d.label)).filter (fun e => e.2.contains v)
+    let start := (before.map (fun e => e.1.nModel)).foldl (· + ·) 0
+    (clp, (cr.2.drop start).take d.nModel))
+  finish d own (parts.map (·.1)) (ofColumns d.nModel (parts.map (·.2)))
+
+/-- `EstimationProviderLinked.get_result` + `create_result_data` for a linked group -/
+def linkedResultsOwn (mi : ModelItems) (g : Group) : Option (List DsResult) :=
+  match alignAxes (g.datasets.map (·.globalAxis)) g.tol g.method, linkedProblems mi g with
+  | some aligned, some (axis, ps) =>
+    match ps.mapM (fun p => (solveLS g.solver p.reduced.m p.data).map (fun cr => (p, cr))) with
+    | none => none
+    | some sols => some ((g.datasets.zip aligned).map (linkedOneOwn mi (g.datasets.zip aligned) axis sols))
+  | _, _ => none
+
+def groupResultsOwn (mi : ModelItems) (g : Group) : Option (List DsResult) :=
+  if g.linked then linkedResultsOwn mi g else g.datasets.mapM (unlinkedResult mi g.solver)
+
+def resultsOwn (mi : ModelItems) (gs : List Group) : Option (List DsResult) :=
+  (gs.mapM (groupResultsOwn mi)).map List.flatten
+
 /-! ### driver: same description lines as C02, then `results` -/
 open Glotaran.Proto
 
@@ -92,10 +136,22 @@ def showRes (r : DsResult) : String :=
   showList [encodeStr r.label, showStrs r.clpLabels, showList (r.clps.map showRats), C02.showMat r.residual,
             (match r.weighted with | some w => C02.showMat w | none => "none"), C02.showMat r.fitted]
 
+/-- the `matrix` (one slice per global index, `matrixAt`) and `global_matrix` variables of a result dataset -/
+def showMatrices (d : Dataset) : String :=
+  match datasetMatrix d.mcs with
+  | none => showList [encodeStr d.label, "none", "none", "none"]
+  | some lm =>
+    showList [encodeStr d.label, showStrs lm.labels,
+      showList ((List.range d.nGlobal).map (fun i => C02.showMat (matrixAt lm d.nGlobal i))),
+      (match datasetMatrix d.gmcs with
+       | some gm => showList [showStrs gm.labels, (match gm.body with | .d2 g => C02.showMat g | .d3 _ => "none")]
+       | none => "none")]
+
 def driverStep (s : C02.DState) (ts : List Tree) : C02.DState × String :=
   match ts with
+  | [.atom "matrices"] => (s, "mat " ++ showList ((s.groups.flatMap (·.datasets)).map showMatrices))
   | [.atom "results"] =>
-    match results s.mi s.groups with
+    match resultsOwn s.mi s.groups with
     | some rs => (s, "res " ++ showList (rs.map showRes))
     | none => (s, "err unsolvable")
   | _ => C02.driverStep s ts
